@@ -70,4 +70,32 @@ def Registry.replay {Item : Type} (r : Registry Item) : List (String Ã— Item) â†
   | [] => r
   | (n, it) :: ops => Registry.replay (r.register n it) ops
 
+
+/-! ### implementations registered as a CLASS
+`Directive(name, schema_name=s)(Impl)` / `Scalar(...)(Impl)` given a class instantiate it at the registration
+(`directive.py`, `scalar.py`: `if isclass(implementation): implementation = implementation()`): the object that ends up in
+the registry is a NEW one per registration, identified here by the registration's position in the history. -/
+
+/-- what the application hands to a decorator: a ready instance (identified by `id`), or a class -/
+inductive Given where
+  | inst (id : Nat)
+  | cls (classId : Nat)
+deriving DecidableEq, Repr
+
+/-- the object stored in the registry -/
+inductive Stored where
+  | given (id : Nat)                       -- the application's own instance
+  | fresh (at_ : Nat) (classId : Nat)      -- instantiated by registration number `at_`
+deriving DecidableEq, Repr
+
+def store (k : Nat) : Given â†’ Stored
+  | .inst id => .given id
+  | .cls c => .fresh k c
+
+/-- a history of registrations `(schema name, what was handed over)`, numbered from `k` -/
+def storeAll : Nat â†’ List (String Ã— Given) â†’ List (String Ã— Stored)
+  | _, [] => []
+  | k, (n, g) :: ops => (n, store k g) :: storeAll (k + 1) ops
+
+
 end Tart.Cache
